@@ -143,6 +143,16 @@ def history_clause(cl, rng, n, replay):
         for rounds in range(3):
             hist += apply_history(rng, h, f, steps=int(rng.integers(0, 3)))
             cl.case((j, rounds, tuple(map(str, hist))), nontrivial=len(hist) > 0)
+            if hist and hist[-1][0] == "range":
+                # a peak search re-accepts: afterwards exactly the windows with a peak in the range are accepted, with their peaks (all windows
+                # stay accepted when none has a peak) - "the accepted windows" is one notion for curves and for peaks
+                has = ~np.isnan(h._main_peak_frq)
+                ok = np.array_equal(h.valid_peak_boolean_mask, has) and (np.array_equal(h.valid_window_boolean_mask, has) if has.any() else h.valid_window_boolean_mask.all())
+                if not ok:
+                    cl.fail("hvsrpy.hvsr_traditional.HvsrTraditional.update_peaks_bounded", "after a peak-range update the accepted windows and the accepted peaks are different sets "
+                            f"(windows {h.valid_window_boolean_mask.astype(int).tolist()}, peaks {h.valid_peak_boolean_mask.astype(int).tolist()}, has a peak {has.astype(int).tolist()})",
+                            signature="stat:masks-after-range", history=hist)
+                    return
             if not check_stats(cl, h, f, A, "hvsrpy.hvsr_traditional.HvsrTraditional", list(hist)):
                 return
             # identical to an object built from the accepted windows alone
